@@ -5,6 +5,7 @@ import common
 PROPS = "RotoV.Props.C18"
 PROPS_USE = "RotoV.Props.C18Use"
 PROPS_PASSES = "RotoV.Props.C18Passes"
+PROPS_HISTORY = "RotoV.Props.C18History"
 
 
 def search(ctx):
@@ -39,6 +40,8 @@ def run(ctx):
                         "RotoV.Lemmas.RegistrationDefects", "RotoV.Lemmas.RegistrationReach",
                         "RotoV.Lemmas.RegistrationAccepts", "RotoV.Lemmas.RegistrationOrigin", "RotoV.Model.Registration",
                         "RotoV.Model.RegistrationSrc"])
+    # histories of adds with rejected adds in them (a rejected add is the identity; T1/T2/T4 over histories)
+    ok4 = prove(PROPS_HISTORY, ["RotoV.Lemmas.RegistrationSession", "RotoV.Model.RegistrationSession"])
     ok2 = prove(PROPS_USE, ["RotoV.Lemmas.UseTree", "RotoV.Model.UseTree"])
     # the theorems that mention the regenerated pass structure (pass order, per-arm scope, declare_import walk)
     ok3 = prove(PROPS_PASSES)
@@ -46,7 +49,7 @@ def run(ctx):
         ctx.coverage["theorems"] = [t for p in parts for t in p["theorems"]]
         ctx.coverage["nonvacuity_examples"] = sum(p["nonvacuity_examples"] or 0 for p in parts)
         ctx.coverage["axioms"] = {k: v for p in parts for k, v in (p["axioms"] or {}).items()}
-    ok2 = ok2 and ok3
+    ok2 = ok2 and ok3 and ok4
     if not (ok1 and ok2):
         ctx.lake_build(["rotov-driver"])
     if ctx.build_harness("c18"):
